@@ -80,6 +80,7 @@ let table : (str * (z list -> z)) list = [
   ("leaf", judge_leaf);
   ("reprt", judge_reprt);
   ("tu_net", judge_tu_net);
+  ("regular_cert", judge_regular_cert);
   ("cliverdict", judge_cliverdict);
 ]
 
